@@ -373,9 +373,11 @@ func (st *State) storeTo(p *Val, v *Val, t types.Type) {
 func (st *State) newRef(hint string) string {
 	r := st.fresh(hint, SInt)
 	st.assume("(> " + r + " 0)")
+	st.assume(eq("(obj_root "+r+")", r))
 	for _, k := range st.known {
-		st.assume(not(eq(r, k)))
+		st.assume(and(not(eq(r, k)), not(eq("(obj_root "+k+")", r))))
 	}
+	st.freshRefs = append(st.freshRefs, r)
 	st.known = append(st.known, r)
 	return r
 }
@@ -544,11 +546,10 @@ func (vf *VerifyFunc) havocLoop(st *State, fr *Frame, body map[*ssa.BasicBlock]b
 					keys[k] = true
 				}
 			case *ssa.MapUpdate:
-				mt := x.Map.Type().Underlying().(*types.Map)
-				ks, vs := sortOf(mt.Key()), sortOf(mt.Elem())
-				keys["MD:"+ks] = true
-				keys["MV:"+ks+":"+vs] = true
-				keys["ML"] = true
+				dk, _, vk, _, lk, _, _ := mapHeap(x.Map.Type())
+				keys[dk] = true
+				keys[vk] = true
+				keys[lk] = true
 			case *ssa.Call, *ssa.Defer, *ssa.Go:
 				cc := in.(ssa.CallInstruction).Common()
 				eff := vf.eng.callEffect(cc)
@@ -780,16 +781,12 @@ func (vf *VerifyFunc) step(st *State, fr *Frame, in ssa.Instruction) bool {
 		return true
 	case *ssa.MakeMap:
 		r := st.newRef("map")
-		mt := x.Type().Underlying().(*types.Map)
-		ks, vs := sortOf(mt.Key()), sortOf(mt.Elem())
+		dk, das, _, _, lk, ks, _ := mapHeap(x.Type())
 		if ks != "" {
-			dk := "MD:" + ks
-			das := "(Array Int (Array " + ks + " Bool))"
 			st.heapSet(dk, das, store(st.heapGet(dk, das), r, "((as const (Array "+ks+" Bool)) false)"))
 			las := "(Array Int Int)"
-			st.heapSet("ML", las, store(st.heapGet("ML", las), r, "0"))
+			st.heapSet(lk, las, store(st.heapGet(lk, las), r, "0"))
 		}
-		_ = vs
 		fr.regs[x] = &Val{T: x.Type(), S: SInt, Tm: r}
 		fr.idx++
 		return true
@@ -953,14 +950,16 @@ func (vf *VerifyFunc) derefCheck(st *State, p *Val, in ssa.Instruction) {
 	if p.A != nil && p.A.Kind == "global" {
 		return
 	}
-	if !vf.nopanic || len(st.frames) > 1 && false {
-		return
-	}
 	base := p.Tm
 	if p.A != nil && (p.A.Kind == "field" || p.A.Kind == "elem" || p.A.Kind == "bytes") {
 		return // derived addresses were checked when formed
 	}
 	if strings.HasPrefix(base, "(fld_addr ") {
+		return
+	}
+	if !vf.nopanic {
+		// partial correctness: a nil dereference panics, so execution continues only with a non-nil pointer
+		st.assume(not(eq(base, "0")))
 		return
 	}
 	st.check("nopanic", "nil-deref@"+st.pos(in), "C14", "nil pointer dereference", st.pos(in), not(eq(base, "0")))
